@@ -1,6 +1,7 @@
 package sim
 
 import (
+	"context"
 	"encoding/json"
 	"fmt"
 	"net/http"
@@ -360,9 +361,25 @@ func runC13(env *Env, rc *RunCtx) {
 		if faults && t.Bool(1, 3) {
 			k, kind = t.Range(1, 4), l2Kinds[t.Choose(len(l2Kinds))]
 		}
+		doer := sys
+		var gone context.CancelFunc
+		if faults && hr.Transport == "rest" && kind == L2None && t.Bool(1, 4) {
+			// the client goes away in the middle of the request: its context is
+			// cancelled when the request issues its k-th SQL statement
+			k, kind = t.Range(1, 4), L2ClientGone
+			cctx, cancel := context.WithCancel(env.Ctx)
+			doer = sys.With(cctx)
+			theHub.mu.Lock()
+			theHub.onClientGone = cancel
+			theHub.mu.Unlock()
+			gone = cancel
+		}
 		theHub.Arm(k, kind)
-		resp := sys.doHostile(hr)
+		resp := doer.doHostile(hr)
 		_, fired := theHub.Disarm()
+		if gone != nil {
+			gone()
+		}
 		nHostile++
 		rc.Rec.Execs++
 		entry := fmt.Sprintf("hostile: %s -> %s", hr, resp)
